@@ -87,7 +87,7 @@ def apportionment(r, res, st, sname, ds, k, j):
     the window, in proportion to their end-of-window holdings (computed here from the implementation's own rows:
     an affiliate's balance after its last row settling up to 30 days after the sale)"""
     s_day = ds[k]["sd"]
-    if any(d["act"] == "Split" and s_day < d["sd"] <= s_day + 30 for d in ds):
+    if any(d["act"] == "Split" and d["sd"] <= s_day + 30 for d in ds[k + 1:]):      # also a split settling on the sale's own day, after it
         st["apportionment-skipped-split-after-sale"] += 1
         return
     hold, buyers = {}, set()
